@@ -109,9 +109,26 @@ inductive NamedT where
   | input (fields : List InField)
   deriving Repr, Inhabited
 
+/-- what a custom scalar's own `parse` / `parse_literal` does with an input (user code: an arbitrary partial function).
+    `refused`: it raised `ValueError` / `TypeError` (→ `ScalarParsingError`, the input is rejected);
+    `raised`: any other exception, which `ScalarType.parse` lets through. -/
+inductive ParseOut where
+  | value (pv : PV)
+  | refused
+  | raised
+  deriving Repr, Inhabited
+
+def ParseOut.toR : ParseOut → R
+  | .value pv => .ok pv
+  | .refused => .error .coercion
+  | .raised => .error .internal
+
+/-- A registry: the named input types, and — as PARAMETERS — the behaviour of the custom scalars' own parsers
+    (`ScalarType(name, parse=…, parse_literal=…)`), by scalar name. Nothing is assumed about them in the model. -/
 structure Reg where
   types : List (String × NamedT)
-  deriving Repr, Inhabited
+  customParse : String → JV → ParseOut
+  customParseLiteral : String → Lit → ParseOut
 
 def Reg.get? (r : Reg) (n : String) : Option NamedT :=
   match r.types.find? (fun p => p.1 == n) with
@@ -275,6 +292,23 @@ def pvOfJsonF : List (String × JV) → List (String × PV)
   | (k, v) :: xs => (k, pvOfJson v) :: pvOfJsonF xs
 end
 
+/-- `default_scalar(...)`: `parse = _identity` -/
+def defaultScalarParse (_ : String) (v : JV) : ParseOut := .value (pvOfJson v)
+
+/-- `default_scalar(...)`: `parse_literal = lambda node, _: node.value` (`IntValue.value` / `FloatValue.value` are the TEXT);
+    a node without `.value` raises AttributeError twice in `ScalarType.parse_literal` and escapes -/
+def defaultScalarParseLiteral (_ : String) (l : Lit) : ParseOut :=
+  match l with
+  | .int n => .value (.str (toString n))
+  | .float t _ => .value (.str t)
+  | .str s => .value (.str s)
+  | .bool b => .value (.bool b)
+  | _ => .raised
+
+/-- a registry whose custom scalars are all `default_scalar`s (what `build_schema` makes of an SDL `scalar X`) -/
+def Reg.ofTypes (types : List (String × NamedT)) : Reg :=
+  { types := types, customParse := defaultScalarParse, customParseLiteral := defaultScalarParseLiteral }
+
 /-- `EnumType.get_value` -/
 def getValue (values : List (String × PV)) (name : String) : R :=
   match values.find? (fun p => p.1 == name) with
@@ -302,13 +336,7 @@ def admits (k : NamedT) (l : Lit) : Bool :=
 /-- `ScalarType.parse_literal` of the specified scalars (`coerce_(node.value)`) and of `default_scalar` -/
 def parseLiteral (k : NamedT) (l : Lit) : R :=
   match k with
-  | .custom =>
-    match l with
-    | .int n => .ok (.str (toString n))      -- IntValue.value is the TEXT
-    | .float t _ => .ok (.str t)
-    | .str s => .ok (.str s)
-    | .bool b => .ok (.bool b)
-    | _ => .error .internal
+  | .custom => .error .internal              -- custom scalars go through `Reg.customParseLiteral` (see `vfaCore`)
   | _ =>
     if admits k l then
       match k, l with
@@ -413,7 +441,7 @@ def coerceCore (reg : Reg) (rec : Ty → JV → R) (t : Ty) (v : JV) : R :=
       | some .string => parseString v
       | some .boolean => parseBool v
       | some .id => parseId v
-      | some .custom => .ok (pvOfJson v)
+      | some .custom => (reg.customParse n v).toR
       | some (.enum vs) =>
         match v with
         | .str s _ _ => getValue vs s
@@ -471,6 +499,7 @@ def vfaCore (reg : Reg) (rec : Ty → Lit → R) (t : Ty) (l : Lit) : R :=
         match l with
         | .enum name => getValue vs name
         | _ => .error .coercion
+      | some .custom => if isScalarLit l then (reg.customParseLiteral n l).toR else .error .coercion
       | some k => if isScalarLit l then parseLiteral k l else .error .coercion
       | none => .error .internal
     | .nonNull _ => .error .internal     -- raise TypeError("Invalid type for input coercion")
